@@ -237,7 +237,7 @@ func (tr *Tr) instr(fr *frame, ins ssa.Instruction) {
 	case *ssa.MakeSlice:
 		ln, cp := to64(tr.val(fr, x.Len)), to64(tr.val(fr, x.Cap))
 		z := bvI(0, 64)
-		tr.safety(fr, "makelen", and(app("bvsle", z, ln), app("bvsle", ln, cp), app("bvslt", cp, bvI(1<<47, 64))), x.Pos(), "make: len out of range")
+		tr.safety(fr, "makelen", and(app("bvsle", z, ln), app("bvsle", ln, cp), app("bvslt", cp, bvI(1<<48, 64))), x.Pos(), "make: len out of range")
 		ref := tr.alloc(fr, "mk")
 		et := x.Type().Underlying().(*types.Slice).Elem()
 		ek := C.elemKey(C.sortOf(et))
